@@ -192,7 +192,11 @@ func dischargeAll(obs []*Oblig, outDir string, timeoutS int, seed int, crossChec
 			if len(script) > 4<<20 {
 				r.Res = SolveResult{Status: "unknown", Output: "script larger than 4 MB: outside reach"}
 			} else {
-				r.Res = solve(path, timeoutS, seed, crossCheck && o.Expect == "unsat")
+				tmo := timeoutS
+				if o.Expect == "sat" && tmo > 4 && !crossCheck {
+					tmo = 4 // satisfiability covers are informational unless refuted: do not spend the budget on them
+				}
+				r.Res = solve(path, tmo, seed, crossCheck && o.Expect == "unsat")
 			}
 			r.OK = r.Res.Status == o.Expect
 			results[i] = r
